@@ -122,6 +122,244 @@ theorem int_exact (w : Nat) (args : List GoVal) (t : Tmpl) (h : mkInt w args = s
         exact stored_int w args xs (mkSlots_spec convInt args xs hs) hok.2
       · cases h
 
+/-- the mathematical value of an argument of an unsigned factory -/
+def mathNat : GoVal → Option Nat
+  | .sint _ v => if v < 0 then none else some v.toNat
+  | .uint _ v => some v
+  | _ => none
+
+theorem stored_uint (w : Nat) (args : List GoVal) (xs : List (Slot Nat))
+    (hspec : All2 (Stored convUint) args xs) (hall : slotsOk (uintInRange w) xs = true) :
+    All2 (fun g s => (∃ v, mathNat g = some v ∧ s = Slot.val v ∧ uintInRange w v = true) ∨
+                      (∃ n, g = GoVal.str n ∧ s = Slot.var n ∧ isValidVarName n = true)) args xs := by
+  induction hspec with
+  | nil => exact .nil
+  | cons hd _ ih =>
+    obtain ⟨h1, h2⟩ := slotsOk_cons _ _ _ hall
+    refine .cons ?_ (ih h2)
+    match hd with
+    | .value g a hc =>
+      left
+      cases g <;> simp [convUint] at hc
+      · obtain ⟨hv, rfl⟩ := hc
+        exact ⟨_, by simp [mathNat, hv], rfl, h1⟩
+      · subst hc; exact ⟨_, rfl, rfl, h1⟩
+    | .name n hc => right; exact ⟨n, rfl, rfl, h1⟩
+
+/-- unsigned factories: what comes out is what went in, in range, or the factory refuses -/
+theorem uint_exact (w : Nat) (args : List GoVal) (t : Tmpl) (h : mkUint w args = some t) :
+    ∃ xs, t = .uint w xs ∧ validWidthInt w = true ∧ args.length * w ≤ 16777215 ∧
+      slotsOk (uintInRange w) xs = true ∧
+      All2 (fun g s => (∃ v, mathNat g = some v ∧ s = Slot.val v ∧ uintInRange w v = true) ∨
+                        (∃ n, g = GoVal.str n ∧ s = Slot.var n ∧ isValidVarName n = true)) args xs := by
+  unfold mkUint at h
+  simp only [] at h
+  split at h
+  · cases h
+  · rename_i hsz
+    cases hs : mkSlots convUint args with
+    | none => simp [hs] at h
+    | some xs =>
+      simp only [hs] at h
+      split at h
+      · rename_i hok
+        injection h with h; subst h
+        simp only [Bool.and_eq_true] at hok
+        have hw := hok.1
+        have hwidth : optWidth (uintFmt? w) = w := by
+          simp only [validWidthInt, Bool.or_eq_true, beq_iff_eq] at hw
+          rcases hw with ((rfl | rfl) | rfl) | rfl <;> rfl
+        refine ⟨xs, rfl, hw, by rw [hwidth] at hsz; unfold maxByteSize at hsz; omega, hok.2, ?_⟩
+        exact stored_uint w args xs (mkSlots_spec convUint args xs hs) hok.2
+      · cases h
+
+theorem stored_bool (args : List GoVal) (xs : List (Slot Bool))
+    (hspec : All2 (Stored convBool) args xs) (hall : slotsOk (fun _ => true) xs = true) :
+    All2 (fun g s => (∃ b, g = GoVal.bool b ∧ s = Slot.val b) ∨
+                      (∃ n, g = GoVal.str n ∧ s = Slot.var n ∧ isValidVarName n = true)) args xs := by
+  induction hspec with
+  | nil => exact .nil
+  | cons hd _ ih =>
+    obtain ⟨h1, h2⟩ := slotsOk_cons _ _ _ hall
+    refine .cons ?_ (ih h2)
+    match hd with
+    | .value g a hc =>
+      left
+      cases g <;> simp [convBool] at hc
+      subst hc; exact ⟨_, rfl, rfl⟩
+    | .name n hc => right; exact ⟨n, rfl, rfl, h1⟩
+
+/-- boolean factory: Go bools and names only, stored as given -/
+theorem boolean_exact (args : List GoVal) (t : Tmpl) (h : mkBoolean args = some t) :
+    ∃ xs, t = .boolean xs ∧ args.length ≤ 16777215 ∧
+      All2 (fun g s => (∃ b, g = GoVal.bool b ∧ s = Slot.val b) ∨
+                        (∃ n, g = GoVal.str n ∧ s = Slot.var n ∧ isValidVarName n = true)) args xs := by
+  unfold mkBoolean at h
+  split at h
+  · cases h
+  · rename_i hsz
+    cases hs : mkSlots convBool args with
+    | none => simp [hs] at h
+    | some xs =>
+      simp only [hs] at h
+      split at h
+      · rename_i hok
+        injection h with h; subst h
+        refine ⟨xs, rfl, by unfold maxByteSize at hsz; omega, ?_⟩
+        exact stored_bool args xs (mkSlots_spec convBool args xs hs) hok
+      · cases h
+
+theorem All2.imp {α β} {R R' : α → β → Prop} {l : List α} {l' : List β} (h : All2 R l l')
+    (f : ∀ a b, R a b → R' a b) : All2 R' l l' := by
+  induction h with
+  | nil => exact .nil
+  | cons hd _ ih => exact .cons (f _ _ hd) ih
+
+/-- factories whose conversion may itself refuse (`some none`): when no slot was refused, the
+unwrapped slots are the converted arguments one by one -/
+theorem stored_unwrap {β} (conv : GoVal → Option (Option β)) (dflt : β) (args : List GoVal) (xs : List (Slot (Option β)))
+    (hspec : All2 (Stored conv) args xs)
+    (hno : xs.any slotRefused = false) :
+    All2 (fun g s => (∃ b, conv g = some (some b) ∧ s = Slot.val b) ∨ (∃ n, g = GoVal.str n ∧ conv g = none ∧ s = Slot.var n))
+      args (xs.map (slotUnwrap dflt)) := by
+  induction hspec with
+  | nil => exact .nil
+  | cons hd _ ih =>
+    simp only [List.any_cons, Bool.or_eq_false_iff] at hno
+    refine .cons ?_ (ih hno.2)
+    match hd with
+    | .value g a hc =>
+      cases a with
+      | none => simp [slotRefused] at hno
+      | some b => exact Or.inl ⟨b, hc, rfl⟩
+    | .name n hc => exact Or.inr ⟨n, rfl, hc, rfl⟩
+
+/-- float factories: every stored pattern is the library conversion of the argument to float64
+followed by the range check and narrowing of the item width (`floatStore`); NaN, infinities and
+out-of-range values are refused, never stored as something else -/
+theorem float_exact (w : Nat) (args : List GoVal) (t : Tmpl) (h : mkFloat w args = some t) :
+    ∃ ys, t = .float w ys ∧ validWidthFloat w = true ∧
+      All2 (fun g s => (∃ b64 b, convFloat64 g = some b64 ∧ floatStore w b64 = some b ∧ s = Slot.val b) ∨
+                        (∃ n, g = GoVal.str n ∧ s = Slot.var n)) args ys := by
+  unfold mkFloat at h
+  simp only [] at h
+  split at h
+  · cases h
+  · split at h
+    · cases h
+    · rename_i hw
+      cases hs : mkSlots (fun g => (convFloat64 g).bind (fun b => some (floatStore w b))) args with
+      | none => simp [hs] at h
+      | some xs =>
+        simp only [hs] at h
+        split at h
+        · cases h
+        · rename_i hno
+          split at h
+          · injection h with h; subst h
+            refine ⟨_, rfl, by simpa using hw, ?_⟩
+            have hspec := mkSlots_spec _ args xs hs
+            have := stored_unwrap _ 0 args xs hspec (by simpa using hno)
+            refine this.imp ?_
+            intro g sl hd
+            rcases hd with ⟨b, hc, rfl⟩ | ⟨n, rfl, _, rfl⟩
+            · left
+              cases hc64 : convFloat64 g with
+              | none => simp [hc64] at hc
+              | some b64 =>
+                simp only [hc64, Option.bind_some, Option.some.injEq] at hc
+                exact ⟨b64, b, rfl, hc, rfl⟩
+            · right; exact ⟨n, rfl, rfl⟩
+          · cases h
+
+theorem All2.with_slotsOk {α} {R : GoVal → Slot α → Prop} (p : α → Bool) {l : List GoVal} {l' : List (Slot α)}
+    (h : All2 R l l') (hok : slotsOk p l' = true) : All2 (fun g s => R g s ∧ slotCheck p s = true) l l' := by
+  induction h with
+  | nil => exact .nil
+  | cons hd _ ih =>
+    obtain ⟨h1, h2⟩ := slotsOk_cons _ _ _ hok
+    exact .cons ⟨hd, h1⟩ (ih h2)
+
+theorem All2.map_right {α β γ} {R : α → β → Prop} (f : β → γ) {l : List α} {l' : List β} (h : All2 R l l') :
+    All2 (fun a c => ∃ b, R a b ∧ c = f b) l (l'.map f) := by
+  induction h with
+  | nil => exact .nil
+  | cons hd _ ih => exact .cons ⟨_, hd, rfl⟩ ih
+
+/-- binary factory: a Go `int` or a string "0b…" read by ParseInt (its error is a refusal), in
+0..255, or a variable name; stored as given -/
+theorem binary_exact (args : List GoVal) (t : Tmpl) (h : mkBinary args = some t) :
+    ∃ zs, t = .binary zs ∧ args.length ≤ 16777215 ∧
+      All2 (fun g s => (∃ v : Int, convBinary g = some (some v) ∧ 0 ≤ v ∧ v < 256 ∧ s = Slot.val v.toNat) ∨
+                        (∃ n, g = GoVal.str n ∧ convBinary g = none ∧ s = Slot.var n ∧ isValidVarName n = true)) args zs := by
+  unfold mkBinary at h
+  split at h
+  · cases h
+  · rename_i hsz
+    cases hs : mkSlots convBinary args with
+    | none => simp [hs] at h
+    | some xs =>
+      simp only [hs] at h
+      split at h
+      · cases h
+      · rename_i hno
+        split at h
+        · rename_i hok
+          injection h with h; subst h
+          refine ⟨_, rfl, by unfold maxByteSize at hsz; omega, ?_⟩
+          have h1 := stored_unwrap convBinary 0 args xs (mkSlots_spec convBinary args xs hs) (by simpa using hno)
+          have h2 := (h1.with_slotsOk _ hok).map_right (fun s => match s with | .val v => Slot.val v.toNat | .var n => Slot.var n)
+          refine h2.imp ?_
+          intro g c ⟨sl, ⟨hd, hck⟩, hc⟩
+          rcases hd with ⟨b, hcv, rfl⟩ | ⟨n, rfl, hcn, rfl⟩
+          · left
+            simp only [slotCheck, Bool.and_eq_true, decide_eq_true_eq] at hck
+            exact ⟨b, hcv, hck.1, hck.2, hc⟩
+          · right
+            exact ⟨n, rfl, hcn, hc, hck⟩
+        · cases h
+
+/-- list factory: items and names only, in the order given; own names valid (or one ellipsis
+that is not first), no name twice anywhere below -/
+theorem list_exact (args : List GoVal) (t : Tmpl) (h : mkList args = some t) :
+    ∃ xs, t = .list xs ∧ args.length ≤ 16777215 ∧ mkListSlots args = some xs ∧
+      listOwnOk xs 0 false = true ∧ nodupNames xs.vars = true := by
+  unfold mkList at h
+  split at h
+  · cases h
+  · rename_i hsz
+    cases hs : mkListSlots args with
+    | none => simp [hs] at h
+    | some xs =>
+      simp only [hs] at h
+      split at h
+      · rename_i hok
+        injection h with h; subst h
+        simp only [Bool.and_eq_true] at hok
+        exact ⟨xs, rfl, by unfold maxByteSize at hsz; omega, rfl, hok.1, hok.2⟩
+      · cases h
+
+/-- the slots of a list are its arguments one by one: an item stays that item, a string becomes a
+variable of that name, anything else is refused -/
+theorem listSlots_spec : ∀ (args : List GoVal) (xs : Slots), mkListSlots args = some xs →
+    (args = [] ∧ xs = .nil) ∨
+    (∃ t r ys, args = .item t :: r ∧ xs = .item t ys ∧ mkListSlots r = some ys) ∨
+    (∃ n r ys, args = .str n :: r ∧ xs = .var n ys ∧ mkListSlots r = some ys)
+  | [], xs, h => by simp [mkListSlots] at h; exact Or.inl ⟨rfl, h.symm⟩
+  | g :: r, xs, h => by
+    cases g with
+    | item t =>
+      simp only [mkListSlots] at h
+      cases hr : mkListSlots r with
+      | none => simp [hr] at h
+      | some ys => simp [hr] at h; exact Or.inr (Or.inl ⟨t, r, ys, rfl, h.symm, hr⟩)
+    | str n =>
+      simp only [mkListSlots] at h
+      cases hr : mkListSlots r with
+      | none => simp [hr] at h
+      | some ys => simp [hr] at h; exact Or.inr (Or.inr ⟨n, r, ys, rfl, h.symm, hr⟩)
+    | sint k v | uint k v | f32 b | f64 b | bool b | other => simp [mkListSlots] at h
+
 /-- an unsigned value above MaxInt64 is refused by the signed factory (never wrapped) -/
 theorem int_refuses_big_unsigned (w k v : Nat) (pre post : List GoVal) (hv : v > 2 ^ 63 - 1) :
     mkInt w (pre ++ GoVal.uint k v :: post) = none := by
